@@ -46,6 +46,19 @@ def parseEnd (ts : Array String) (i : Nat) : Option (EndSpec × Nat) :=
 /-- the user-level copy of a connector end (`ConnEnd` copy constructor) -/
 def specOfEnd (e : End) : EndSpec := e.map (fun x => ⟨x.anchor, x.cls⟩)
 
+/-- the obstacle ids carried by the boundary points of a cluster polygon: the tokens after `:` are quadruples
+    `x y id vn`; id 0 = a plain point -/
+def refsOf (ts : Array String) : List Id :=
+  match ts.toList.dropWhile (· != ":") with
+  | [] => []
+  | _ :: rest =>
+    let rec go : List String → List Id → List Id
+      | _ :: _ :: i :: _ :: tl, acc =>
+        let r := nat! i
+        go tl (if r == 0 || acc.contains r then acc else acc ++ [r])
+      | _, acc => acc
+    go rest []
+
 /-- `op` line (without the leading keyword) ↦ the model operations the call performs, in order (the model
     state is consulted for composite calls); `[]` = no lifetime effect -/
 def parseOp (s : St) (ts : Array String) : Except String (List Op) :=
@@ -77,9 +90,9 @@ def parseOp (s : St) (ts : Array String) : Except String (List Op) :=
   | some "setTransactionUse" => .ok [.setTransactionUse (n 1 == 1)]
   | some "deleteRouter" => .ok [.deleteRouter]
   | some "registerHyperedge" => .ok []
-  | some "newCluster" => .ok [.newCluster (n 1)]
+  | some "newCluster" => .ok [.newCluster (n 1) (refsOf ts)]
   | some "deleteCluster" => .ok [.deleteCluster (n 1)]
-  | some "setClusterPoly" => .ok [.setClusterPoly (n 1)]
+  | some "setClusterPoly" => .ok [.setClusterPoly (n 1) (refsOf ts)]
   | some "touchConn" => .ok [.touchConn (n 1)]
   | some "api" =>
     match ts[1]? with
@@ -135,7 +148,7 @@ def opName : Op → String
   | .processTransaction => "processTransaction" | .setTransactionUse _ => "setTransactionUse"
   | .deleteRouter => "deleteRouter" | .rDelConn _ => "rDelConn" | .rDelJunction _ => "rDelJunction"
   | .rNewJunction .. => "rNewJunction" | .rNewConn _ => "rNewConn"
-  | .newCluster _ => "newCluster" | .deleteCluster _ => "deleteCluster" | .setClusterPoly _ => "setClusterPoly"
+  | .newCluster .. => "newCluster" | .deleteCluster _ => "deleteCluster" | .setClusterPoly .. => "setClusterPoly"
   | .touchConn _ => "touchConn" | .touchPin _ => "touchPin" | .apiRouter => "apiRouter"
   | .apiConn _ => "apiConn" | .apiObst _ => "apiObst"
 
@@ -168,7 +181,10 @@ def applyOp (kf : Bool) (a : Acc) (op : Op) (txt : String) : Acc :=
       { a with deletes := a.deletes + 1 }
     | .rNewConn c => { a with routerMade := c :: a.routerMade }
     | _ => a
-  if !kf && s'.faults != [] && legal then
+  let a := match op with
+    | .newCluster _ (_ :: _) | .setClusterPoly _ (_ :: _) => { a with stats := bumpStats a.stats "cluster_boundaries_referencing_shapes" 1 }
+    | _ => a
+  if !kf && (s'.faults != [] || s'.refFaults != []) && legal then
     a.fail (.diverge s!"model reports a fault on a strictly legal history after op #{a.nops}: {txt}")
   else a
 
@@ -195,7 +211,7 @@ def checkCaseRouter (c : Case) : CaseResult :=
       match parseHyper rest with
       | .error e => a.fail (.diverge e)
       | .ok op => applyOp kf a op ("hyper " ++ " ".intercalate rest.toList)
-    else if kf && a.s.faults != [] then a     -- after the model's fault point nothing is compared
+    else if kf && (a.s.faults != [] || a.s.refFaults != []) then a     -- after the model's fault point nothing is compared
     else if key == "os" || key == "oj" then
       let impl := natsOf rest
       let model := sortNat ((a.s.obst.filter (fun o => o.active && (o.junction == (key == "oj")))).map (·.id))
@@ -258,7 +274,7 @@ def checkCaseRouter (c : Case) : CaseResult :=
   let stats := bumpStats stats "ops" a.nops
   let stats := if a.queuedAtDestroy then bumpStats stats "destroyed_with_queued_actions" 1 else stats
   let stats := if a.offOps > 0 then bumpStats stats "cases_with_transactions_off" 1 else stats
-  let stats := if a.s.faults != [] then bumpStats stats "model_faults" 1 else stats
+  let stats := if a.s.faults != [] || a.s.refFaults != [] then bumpStats stats "model_faults" 1 else stats
   let stats := bumpStats stats "model_freed_objects" a.s.freed.length
   { verdict := a.err.getD .ok, nontrivial := a.nops ≥ 5 && a.deletes ≥ 1, stats := stats }
 
